@@ -34,6 +34,11 @@ func (server *Server) registerSugarExecutors() {
 			if err != nil {
 				return nil, err
 			}
+			// Only the canonical decimal form is an integer for Redis:
+			// "007", "+5" or "-0" are rejected like any other non-integer.
+			if retStr, _ := getRet.String(); retStr != strconv.Itoa(retVal) {
+				return nil, ErrNotInteger
+			}
 			currVal = retVal
 		}
 		newVal := currVal + val
